@@ -394,12 +394,20 @@ def run(ctx, cases_override=None):
 
         # ---- round trips: implementation vs extracted Coq model, plus the python oracle on the implementation
         if cases_override:
-            lines = [l for l in cases_override if (" rt " in l or " ptree " in l) and l.startswith("pm" if gi else "ps")]
-            meta = {}
+            # replay: route the stored case lines to the driver that owns the struct
+            def owner(l):
+                w = l.split(" ", 3)
+                return 1 if (len(w) > 2 and w[1] == "rt" and w[2].startswith(MPI_STRUCTS_PREFIX)) else 0
+            lines = [l for l in cases_override if l.split(" ", 2)[1:2] in (["rt"], ["ptree"]) and owner(l) == gi]
+            # the stored defaults/schema tokens are part of the line; the python oracle is re-derived for
+            # the struct's own instance when the line was generated by build_cases (same id scheme)
+            gen_lines, gen_meta = build_cases(ctx, data, defaults, tops, "pm" if gi else "ps")
+            by_line = dict((gl, gen_meta[gl.split(" ", 1)[0]]) for gl in gen_lines)
+            meta = dict((l.split(" ", 1)[0], by_line[l]) for l in lines if l in by_line)
         else:
             lines, meta = build_cases(ctx, data, defaults, tops, "pm" if gi else "ps")
             if gi == 0: lines += ptree_cases(ctx)
-        f, impl, model = diff_run(ctx, drv, lines, shards=8,
+        f, impl, model = diff_run(ctx, drv, lines, shards=8, timeout=300,
                                   nontrivial=lambda op, pin, o: bool(o) and not o.startswith(("EXC", "CRASH", "NOT")))
         for x in f:
             x["theorem"] = "correspondence drv_%s (%s) vs Ptree.v on the regenerated tables (import/export/unknowns)" % (drv, x["op"])
@@ -449,8 +457,7 @@ def run(ctx, cases_override=None):
                               size=1, sig=dict(struct=a, field=b), theorem="C14_A2 " + why))
 
     # ---- (ii) run-time vs compile-time, bit for bit
-    if not cases_override:
-        fails += rtstatic(ctx)
+    fails += rtstatic(ctx, cases_override)
     return fails
 
 
@@ -608,7 +615,7 @@ def rt_tree(r, key, extra=None, bad=None):
     return t
 
 
-def rtstatic(ctx):
+def rtstatic(ctx, cases_override=None):
     r = random.Random(ctx["seed"] * 104729 + 3)
     thorough = ctx["tier"] != "quick"
     st = ctx["stats"]; fails = []
@@ -639,13 +646,27 @@ def rtstatic(ctx):
             if cls == "relaxation": slots += [("precond", "type")]
             for sl in slots:
                 add(key, rt_tree(r, key, bad=(sl, r.choice(["cgs", "amgx", "jacobi", "AMG", "Smoothed_Aggregation"]))), "badenum")
-        out = ctx["run_driver"](exe, lines, shards=8)
+        # (a dropped import leaves a member uninitialised: sweep counts of 2^31 must not stall the check)
+        if cases_override is not None:
+            # replay: only the stored lines of this part (ids start with the part letter), same expectations
+            keep = set(l for l in cases_override if l.split(" ", 2)[1:2] == ["cmp"] and l[0] == part[-1])
+            lines = [l for l in lines if l in keep]
+            for l in keep:
+                if l not in lines:       # a line from another seed: bitwise equality is still required
+                    lines.append(l); expect[l.split(" ", 1)[0]] = ("replay", "?", None)
+            if not lines: continue
+        out = ctx["run_driver"](exe, lines, shards=12, timeout=(120 if not thorough else 600))
         account(ctx, lines, out, nontrivial=lambda op, pin, o: bool(o) and " it=" in o)
         for l in lines:
-            cid = l.split(" ", 1)[0]; kind, key, extra = expect[cid]; o = out.get(cid) or ""
+            cid = l.split(" ", 1)[0]; kind, key, extra = expect[cid]
+            if cid not in out: continue      # the driver died / timed out earlier in this shard (that case is reported as CRASH)
+            o = out.get(cid) or ""
             st["oracle_checks"] += 1
             bad = None
-            if kind == "badenum":
+            if kind == "replay":
+                if o.startswith("RT EXC invalid_argument") or (o.endswith("| EQ") and " it=" in o): continue
+                bad = "replayed case still differs"
+            elif kind == "badenum":
                 if not o.startswith("RT EXC invalid_argument"): bad = "invalid enumeration text must raise std::invalid_argument"
             else:
                 if not o.endswith("| EQ") or " it=" not in o: bad = "run-time and compile-time solvers differ (iterations / residual / solution bits / unknown keys)"
